@@ -210,12 +210,13 @@ class FakeTask:
 
 
 class FakeJob:
-    def __init__(self, n):
+    def __init__(self, n, script=False):
         self.n = n
         self.id = f"job{n}"
         self.eval_hash = f"{n:040x}"
         self.args = ((n,), {})
         self.task = FakeTask()
+        self.task.script = script
         self.execution = None
         self.status = "RUNNING"
 
@@ -404,6 +405,8 @@ class BatchAd(Adapter):
                 yield {"jobId": jid, "status": m.SUCCEEDED}
         self.patch(m, "iter_batch_job_status", iter_batch_job_status)
         self.patch(m, "get_job_log_stream", lambda job, aws_region=None: None)
+        self.patch(m, "get_task_command", lambda task, args, kwargs: "cmd")
+        self.patch(m, "submit_command", lambda image, queue, prefix, job, command, **k: {"jobId": f"b{job.n}", "jobName": "n"})
         self.ex = m.AWSBatchExecutor("b", scheduler=self.sched, config=section(
             {"image": "img", "queue": "q", "s3_scratch": self.tmp + "/s3", "aws_region": "us-west-2",
              "job_monitor_interval": 0, "code_package": False, **self.arr_cfg(), "debug_scratch": self.tmp + "/dbg"}))
@@ -434,6 +437,8 @@ class K8sAd(Adapter):
         self.patch(m, "submit_task", lambda client, image, ns, prefix, job, task, **k: FakeK8sJob(f"k{job.n}"))
         self.patch(m, "k8s_describe_jobs", lambda client, names, namespace=None: [FakeK8sJob(n) for n in names])
         self.patch(m, "get_k8s_job_pods", lambda core, name: [])
+        self.patch(m, "get_task_command", lambda task, args, kwargs: "cmd")
+        self.patch(m, "submit_command", lambda client, image, ns, prefix, job, command, **k: FakeK8sJob(f"k{job.n}"))
         self.ex = m.K8SExecutor("k", scheduler=self.sched, config=section(
             {"image": "img", "scratch": self.tmp, "type": "k8s", "job_monitor_interval": 0,
              "code_package": False, **self.arr_cfg(k8s=True)}))
@@ -496,14 +501,31 @@ class Run:
         self.key, self.njobs = key, njobs
         self.ad = ADAPTERS[key](info, repo).open()
         self.det = self.ad.det
-        self.jobs = [FakeJob(n) for n in range(njobs)]
+        # program: what the scheduler thread does. ("job", script?) | ("wait",) = yield until stepped again
+        # | ("stop",) = yield, then executor.stop() (Scheduler.run's `finally: executor.stop()`)
+        program = info.get("program") or [("job", False)] * njobs
+        self.jobs = []
+        steps = []
+        for item in program:
+            if item[0] == "job":
+                j = FakeJob(len(self.jobs), script=bool(item[1]))
+                self.jobs.append(j)
+                steps.append(("job", j))
+            else:
+                steps.append((item[0], None))
         self.history = []   # (action, status, observation)
 
         def body():
-            for j in self.jobs:
-                if pause_between:      # fallback mode (no marked lines): yield before every _submit
-                    self.det.pause(("submit", j.n))
-                self.ad.submit(j)
+            for kind, j in steps:
+                if kind == "job":
+                    if pause_between:      # fallback mode (no marked lines): yield before every _submit
+                        self.det.pause(("submit", j.n))
+                    self.ad.submit(j)
+                elif kind == "wait":
+                    self.det.pause(("wait", 0))
+                elif kind == "stop":
+                    self.det.pause(("extstop", 0))
+                    self.ad.ex.stop()
         th = CThread(self.det, body, fixed_name="S")
         th.start()
         # run the scheduler thread to its first scheduling point (before the first insert)
